@@ -47,7 +47,7 @@ def spec_from_seed(run_seed, tier):
         # an ensemble in which one member's generation fails early on (the caller's generator raises inside it): whether the
         # library ends that pass or carries on, the composition of what is generated afterwards is the declared one
         mode = "outcome"
-        fault = {"kind": rnd.choice(["rng_raise", "rng_raise", "rng_interrupt"]), "gen": 0, "after_yields": rnd.choice([1, 2, 3, 5]),
+        fault = {"kind": rnd.choice(["rng_raise", "rng_value", "rng_value", "rng_interrupt"]), "gen": 0, "after_yields": rnd.choice([1, 2, 3, 5]),
                  "offset": rnd.randrange(0, 5), "respawn": True}
     for _ in range(30):
         text, tags, sysw = archetypes.gen_system(rnd, {"safe_dist": True, "max_units": 8 if mode == "outcome" else 40},
